@@ -13,7 +13,9 @@ INT64_MAX = (1 << 63) - 1
 
 _DEC_INT = re.compile(r"-?(0|[1-9][0-9]*)\Z")
 _HEX_INT = re.compile(r"0x[0-9a-fA-F]+\Z")
-_DEC_FLT = re.compile(r"-?(0|[1-9][0-9]*)\.[0-9]+\Z")
+# fixed-point decimals, and the other float spellings of reference-main-arithmetic.md / questions about number formats:
+# trailing or leading point (5. .5) and decimal exponents (1e3, 1.5E-2)
+_DEC_FLT = re.compile(r"-?((0|[1-9][0-9]*)\.[0-9]*|\.[0-9]+|(0|[1-9][0-9]*))([eE][-+]?[0-9]+)?\Z")
 # anything else that might be inferred as a number by Miller but that this model does not cover
 _MAYBE_NUM = re.compile(r"[-+.0-9]|inf|nan|true|false", re.I)
 
@@ -161,6 +163,16 @@ def pct_index(p, n):
     if i > n - 1:
         i = n - 1
     return i
+
+
+def pct_index_set(ptext, n):
+    """Indices the documented non-interpolated rule sorted[int(p/100*n)] allows for the percentile written as
+    `ptext`: the rule evaluated in exact rational arithmetic on the decimal as written, and on the IEEE double
+    nearest to it (a percentile such as 66.6 is necessarily held as a double; 66.6*n/100 may then lie just
+    below the integer the decimal gives).  For every p that is exactly representable (all integers, .5, .25 ...)
+    the set has one element.  Nothing here depends on the order of floating-point operations."""
+    p = Fraction(ptext)
+    return {pct_index(p, n), pct_index(Fraction(float(p)), n)}
 
 
 def pct_boundary(p, n):
